@@ -540,8 +540,12 @@ func checkHistory(ctx *pbt.Ctx, c History) error {
 		cur = ref.ToLib(m)
 	case "parse-std", "parse-ext":
 		var err error
-		if cur, err = bt.NewTxFromBytes(ref.Encode(c.Tx, c.Start == "parse-ext")); err != nil {
+		buf := ref.Encode(c.Tx, c.Start == "parse-ext")
+		if cur, err = bt.NewTxFromBytes(buf); err != nil {
 			return fmt.Errorf("NewTxFromBytes rejected the reference encoding of the start transaction: %v", err)
+		}
+		for i := range buf { // the caller reuses the buffer it parsed from
+			buf[i] = ^buf[i]
 		}
 	default:
 		var txs bt.Txs
@@ -730,7 +734,7 @@ func checkHistory(ctx *pbt.Ctx, c History) error {
 // generator
 
 func histOpts() gen.TxOpts {
-	return gen.TxOpts{MinIn: 0, MaxIn: 3, MinOut: 0, MaxOut: 3, MaxScript: 90, ScriptEdges: []int{0, 1, 2, 75, 76}}
+	return gen.TxOpts{MinIn: 0, MaxIn: 3, MinOut: 0, MaxOut: 3, MaxScript: 300, ScriptEdges: []int{0, 1, 2, 75, 76, 127, 128, 253}}
 }
 
 func genIn(t *rapid.T) *ref.In {
